@@ -80,7 +80,9 @@ class ArgSpec:
             case int():
                 return str(arg)
             case float():
-                return str(arg)
+                text = str(arg)
+                # the lexer reads a NUMBER as a float only if it has a `.`: 1e+22 -> 1.0e+22
+                return text.replace("e", ".0e") if "." not in text else text
 
     @staticmethod
     def _spec_parameter_list_type_str(name: str, arg: ParameterListType) -> str:
@@ -139,6 +141,12 @@ def _convert_arg_to_type(
     # then check if n-tuple value is okay
     if isa(value, dest_type):
         return value
+
+    # non-finite floats have no NUMBER syntax: they print as inf/-inf/nan and lex as strings
+    non_finite = ("inf", "-inf", "nan")
+    if any(isinstance(v, str) and v in non_finite for v in value):
+        as_floats = (float(v) if isinstance(v, str) and v in non_finite else v for v in value)
+        return _convert_arg_to_type(tuple(as_floats), dest_type)
 
     # at this point we exhausted all possibilities
     raise ValueError(f"Incompatible types: given {value}, expected {dest_type}")
